@@ -1,4 +1,6 @@
 import Pcore.Proofs.ObjectDefine
+import Pcore.Proofs.ObjectSchema
+import Pcore.Generated.ObjectSchema
 import Mathlib.Data.List.Perm.Subperm
 /-!
 # C17 — Object types: constructors, init-hash, equality and inheritance cohere
@@ -36,13 +38,21 @@ Full statement / proved / missing
                          same type).  `C17_include_type_honoured`: the former known finding, replayed in the model.
 * `C17_subtype`        — proved: an ancestor (any non-empty suffix of the level list) accepts every instance;
                          `C17_subtype_strict`: a type never accepts an instance of a proper ancestor.
-* `C17_schema_partial` — proved at model level: every `WellFormedDef` (attributes well-formed on their own and not clashing
-                         with an inherited member, equality names non-constant attributes not already in an inherited
-                         equality, serialization names positional attributes with required never after optional) is accepted
-                         by `define`.  Missing: that the parsed text / init-hash of such a definition is an instance of the
-                         Struct `TypeObjectInitHash` — the Struct instance test and the parser are not part of this model
-                         (C02 / C05 territory); checked by the correspondence run only (predicate class
-                         `schema-admitted-rejected`, which reads the declared schema member by member).
+* `C17_schema`         — proved: every `WellFormedDef` (attributes well-formed on their own, each a fresh name or a proper
+                         override; equality names non-constant attributes not already in an inherited equality;
+                         serialization names positional attributes with required never after optional) whose names match
+                         MemberNamePattern passes the schema assertion AND the definition proper (`defineChecked`), for ANY
+                         member table satisfying the decidable side condition `schemaOKb` (no member listed twice, all
+                         optional, the six members of the universe with the value types `sinst` implements, every key
+                         `InitFromHash` reads declared, the pinned source texts of TypeEquality & co.).
+                         `C17_schema_table_ok` discharges the side condition by `decide` on the table REGENERATED from
+                         types/objecttype.go on every run (second tie: duplicating a member — the defect repaired by
+                         54779d2 — breaks this obligation, and the model, which uses the same table, then reproduces the
+                         TYPE_MISMATCH: see `schemaBefore`).  `C17_schema_admits`: the Struct instance test
+                         (StructType.IsInstance, `structInst`) accepts the init-hash of every definition of the universe;
+                         `C17_schema_partial`: the definition proper.  Missing: the text parser (C05) and the general
+                         instance relation of Pattern/Variant/Hash types (C02) — `sinst` implements them on the value shapes
+                         an object definition holds only.
 * missing altogether: `override => true`, functions, type parameters, annotations, Go-reflected objects
   (`reflectedObject`), a `serialization` list with a repeated name (accepted by the code, the named constructor then indexes
   out of range — outside the universe).
@@ -112,6 +122,125 @@ theorem C17_schema_partial {env : List OType} {d : Def} (h : WellFormedDef env d
   unfold define
   simp only [has, heq, hser]
   exact ⟨_, rfl⟩
+
+/-! ### … and its init-hash is an instance of the declared schema `TypeObjectInitHash` (regenerated table) -/
+
+/-- obligation over the regenerated member table of `TypeObjectInitHash` (types/objecttype.go): this is what a change of
+    the schema breaks (e.g. listing `equality` twice, the defect repaired by 54779d2) -/
+theorem C17_schema_table_ok : schemaOKb Pcore.Generated.objectSchema = true := by decide
+
+/-- every name of the definition matches MemberNamePattern (what the driver's universe guarantees: `nameOf`) -/
+structure DefNamesValid (d : Def) : Prop where
+  attrs : ∀ a ∈ d.attrs, memberName a.name = true
+  equality : ∀ n ∈ d.equality.toList?.getD [], memberName n = true
+  serialization : ∀ ser, d.serialization = some ser → ∀ n ∈ ser, memberName n = true
+
+theorem keys_nodup : ∀ b1 b2 b3 b4 b5 b6 : Bool,
+    ((if b1 then ["name"] else []) ++ (if b2 then ["parent"] else []) ++ (if b3 then ["attributes"] else []) ++
+     (if b4 then ["equality"] else []) ++ (if b5 then ["equality_include_type"] else []) ++
+     (if b6 then ["serialization"] else [])).Nodup := by
+  intro b1 b2 b3 b4 b5 b6
+  cases b1 <;> cases b2 <;> cases b3 <;> cases b4 <;> cases b5 <;> cases b6 <;> decide
+
+theorem defHash_keys (name : Option String) (pk : Bool) (d : Def) :
+    (defHash name pk d).map (·.1) =
+      (if name.isSome then ["name"] else []) ++ (if pk then ["parent"] else []) ++
+      (if !d.attrs.isEmpty then ["attributes"] else []) ++
+      (if d.equality != .absent then ["equality"] else []) ++
+      (if d.includeType.isSome then ["equality_include_type"] else []) ++
+      (if d.serialization.isSome then ["serialization"] else []) := by
+  unfold defHash
+  cases name <;> cases pk <;> cases d.attrs.isEmpty <;> cases d.equality <;> cases d.includeType <;>
+    cases d.serialization <;> rfl
+
+/-- for ANY member table satisfying the side condition, the init-hash of every definition of the universe — as parsed
+    text (no `name`/`parent` entry) or as a complete init-hash — is an instance of the Struct, whatever the definition
+    declares (StructType.IsInstance modelled by `structInst`) -/
+theorem C17_schema_admits (s : Schema) (hs : schemaOKb s = true) (d : Def) (hd : DefNamesValid d)
+    (name : Option String) (hn : ∀ n, name = some n → typeName n = true) (pk : Bool) :
+    structInst s.members (defHash name pk d) = true := by
+  unfold schemaOKb at hs
+  simp only [Bool.and_eq_true, decide_eq_true_eq, List.all_eq_true, beq_iff_eq] at hs
+  obtain ⟨⟨⟨⟨⟨⟨⟨⟨⟨hnd, hopt⟩, h1⟩, h2⟩, h3⟩, h4⟩, h5⟩, h6⟩, _⟩, _⟩ := hs
+  apply structInst_of hnd hopt
+  · rw [defHash_keys]; exact keys_nodup _ _ _ _ _ _
+  · intro e he
+    unfold defHash at he
+    simp only [List.mem_append] at he
+    rcases he with ((((he | he) | he) | he) | he) | he
+    · cases name with
+      | none => simp at he
+      | some n =>
+        simp at he; subst he
+        obtain ⟨m, hm, hmn, hmt⟩ := memberTy_mem h1
+        exact ⟨m, hm, hmn, by rw [hmt]; exact hn n rfl⟩
+    · cases pk with
+      | false => simp at he
+      | true =>
+        simp at he; subst he
+        obtain ⟨m, hm, hmn, hmt⟩ := memberTy_mem h2
+        exact ⟨m, hm, hmn, by rw [hmt]; rfl⟩
+    · by_cases hemp : d.attrs.isEmpty = true
+      · simp [hemp] at he
+      · simp [hemp] at he; subst he
+        obtain ⟨m, hm, hmn, hmt⟩ := memberTy_mem h3
+        refine ⟨m, hm, hmn, ?_⟩
+        rw [hmt]
+        simp only [sinst, List.all_eq_true, List.mem_map]
+        rintro n ⟨a, ha, rfl⟩
+        exact hd.attrs a ha
+    · obtain ⟨m, hm, hmn, hmt⟩ := memberTy_mem h4
+      cases hq : d.equality with
+      | absent => simp [hq] at he
+      | one q =>
+        simp [hq] at he; subst he
+        exact ⟨m, hm, hmn, by rw [hmt]; exact hd.equality q (by simp [hq, EqDecl.toList?])⟩
+      | many l =>
+        simp [hq] at he; subst he
+        refine ⟨m, hm, hmn, ?_⟩
+        rw [hmt]
+        simp only [sinst, List.all_eq_true]
+        intro n hn'
+        exact hd.equality n (by simp [hq, EqDecl.toList?, hn'])
+    · cases hi : d.includeType with
+      | none => simp [hi] at he
+      | some b =>
+        simp [hi] at he; subst he
+        obtain ⟨m, hm, hmn, hmt⟩ := memberTy_mem h5
+        exact ⟨m, hm, hmn, by rw [hmt]; rfl⟩
+    · cases hser : d.serialization with
+      | none => simp [hser] at he
+      | some l =>
+        simp [hser] at he; subst he
+        obtain ⟨m, hm, hmn, hmt⟩ := memberTy_mem h6
+        refine ⟨m, hm, hmn, ?_⟩
+        rw [hmt]
+        simp only [sinst, List.all_eq_true]
+        exact hd.serialization l hser
+
+/-- every definition the declared schema admits is accepted: a well-formed definition passes the schema assertion (for any
+    table satisfying the side condition) and the definition proper.  Instantiated on the regenerated table below. -/
+theorem C17_schema (s : Schema) (hs : schemaOKb s = true) {env : List OType} {d : Def} (h : WellFormedDef env d)
+    (hd : DefNamesValid d) : ∃ t, defineChecked s.members env d = .ok t := by
+  unfold defineChecked
+  rw [C17_schema_admits s hs d hd none (by intro n hn; cases hn) d.parent.isSome]
+  exact C17_schema_partial h
+
+theorem C17_schema_impl {env : List OType} {d : Def} (h : WellFormedDef env d) (hd : DefNamesValid d) :
+    ∃ t, defineChecked Pcore.Generated.objectSchema.members env d = .ok t :=
+  C17_schema _ C17_schema_table_ok h hd
+
+/-- the table before the fix 54779d2 (`equality` listed twice): the side condition is refuted and the model reproduces the
+    defect — the (well-formed) definition `{equality => []}` is rejected with TYPE_MISMATCH -/
+def schemaBefore : Schema := { Pcore.Generated.objectSchema with
+  members := Pcore.Generated.objectSchema.members ++ [{ name := "equality", optional := true, ty := .equality }] }
+example : schemaOKb schemaBefore = false := by decide
+example : defineChecked schemaBefore.members []
+    { parent := none, attrs := [], equality := .many [], includeType := none, serialization := none } =
+    .error .typeMismatch := by decide
+example : ∃ t, defineChecked Pcore.Generated.objectSchema.members []
+    { parent := none, attrs := [], equality := .many [], includeType := none, serialization := none } = .ok t :=
+  ⟨_, rfl⟩
 
 /-! ### each attribute reads back the value given or its default -/
 
